@@ -204,15 +204,18 @@ OneDirection(setup, entry, subs) ==
 AfterCall(setup, s, entry, subs, o) ==
     LET r == Fold(setup, s, Run0(s), entry.elems, subs, o, entry.ctype)
         n == Len(r.m)
+        \* the observed atom j (source of fresh tokens); a run whose atom count differs from the specified one is judged
+        \* on the specified atoms (total: the divergence is reported by the field comparison, not by an evaluation error)
+        OA(j) == IF j <= Len(o.atoms) THEN o.atoms[j] ELSE r.m[j].a
         atoms == [j \in 1..n |->
-                    IF r.free THEN o.atoms[j]
-                    ELSE IF r.m[j].fresh THEN (IF j <= Len(o.atoms) THEN o.atoms[j] ELSE r.m[j].a)
+                    IF r.free THEN OA(j)
+                    ELSE IF r.m[j].fresh THEN (OA(j))
                     ELSE IF r.m[j].mv \/ (setup.fixcom /\ \E i \in 1..n : r.m[i].mv)
                     THEN IF r.ham
-                         THEN [r.m[j].a EXCEPT !.pos = IF j \in r.cons THEN @ ELSE o.atoms[j].pos,
-                                               !.mom = o.atoms[j].mom]
+                         THEN [r.m[j].a EXCEPT !.pos = IF j \in r.cons THEN @ ELSE OA(j).pos,
+                                               !.mom = OA(j).mom]
                          ELSE IF j \in r.cons /\ r.cell = s.cell THEN r.m[j].a     \* FixAtoms: never moves
-                         ELSE [r.m[j].a EXCEPT !.pos = o.atoms[j].pos]
+                         ELSE [r.m[j].a EXCEPT !.pos = OA(j).pos]
                     ELSE r.m[j].a]
         clear == [m \in DOMAIN s.presel |-> <<NoLab, NoLab, NoLab>>]
     IN [s EXCEPT !.atoms = atoms, !.cell = r.cell, !.cons = r.cons,
